@@ -1,6 +1,312 @@
-"""placeholder, filled in below"""
-RUNTIME = None
+"""Cutting loops by a sidecar invariant (the unbounded route for loops whose trip count is
+symbolic).
+
+The contract supplies, per function and loop ordinal (source order of `for`/`while`
+statements inside the function), a LoopSpec.  `transform` rewrites ONLY that statement:
+
+    for TARGET in ITER:                 __pv0 = __pyvc__.enter("f", 0, ITER, locals())
+        BODY                   ==>      (m1, m2, ...) = __pv0.havoc()
+    [else: ORELSE]                      for TARGET in __pv0:
+                                            BODY
+                                        [else: ORELSE]
+
+    while COND:                         __pv0 = __pyvc__.enter("f", 0, None, locals())
+        BODY                   ==>      (m1, m2, ...) = __pv0.havoc()
+                                        while __pv0.again() and COND:
+                                            BODY
+
+Semantics of the cut (standard): `enter` checks the invariant on entry (obligation
+inv:K:init); `havoc` replaces the variables the body assigns - and whatever heap state the
+spec's `havoc` function says the body mutates - by arbitrary values that satisfy the
+invariant, at an arbitrary iteration index i; the loop then runs AT MOST ONE iteration:
+if it is entered, the end of the body (or `continue`) re-checks the invariant for i+1
+(obligation inv:K:step) and ends the path; if it is not entered (i == n, or COND false) the
+code after the loop continues from "invariant and exit condition".  `break` and `return`
+inside the body behave as written.  Termination is not proved.
+
+What is checked mechanically: every NAME the body stores to is listed in `modifies` (else
+the transformation refuses).  What is trusted from the spec: the list of heap objects the
+body mutates (spec.havoc must havoc them) - stated in DESIGN.md.
+"""
+from __future__ import annotations
+
+import ast
+import sys
+from types import SimpleNamespace
+
+import z3
+
+from . import sym
+from .sym import SymBool, SymNum, Unsupported, ctx
 
 
-def transform(tree, cuts, dropped):
-    raise NotImplementedError
+class LoopSpec:
+    def __init__(self, modifies, invariant, havoc, seq=None, name=None, ghost=None):
+        """modifies : names assigned in the body (the loop target is added automatically)
+        invariant(env, i, n) -> truth value; env = namespace of the function's locals
+        havoc(S, env, i, n) -> {name: fresh value} for every name in `modifies`
+                               (may also mutate heap objects reachable from env)
+        seq(env, iterable) -> (n, at) : length and element-at-index of the iterated
+                               sequence (default: range objects and models with __symlen__/at)"""
+        self.modifies = list(modifies)
+        self.invariant = invariant
+        self.havoc = havoc
+        self.seq = seq
+        self.name = name
+        self.ghost = ghost      # ghost(env0) -> namespace of values captured at loop entry (env.g)
+
+
+class PathEnd(BaseException):
+    """The single iteration of a cut loop finished and the invariant was re-established."""
+
+
+class LoopObligationFailed(BaseException):
+    def __init__(self, name, what):
+        self.name, self.what = name, what
+
+
+ACTIVE: dict = {}          # {(qualname, ordinal): LoopSpec}, set by pyvc.core before a run
+
+
+class _Fresh:
+    """Factory handed to spec.havoc"""
+
+    def __init__(self, c):
+        self.c = c
+
+    def int(self, hint="h", lo=None, hi=None):
+        v = self.c.fresh_int(hint)
+        if lo is not None:
+            self.c.assume_term(v.t >= lo)
+        if hi is not None:
+            self.c.assume_term(v.t <= hi)
+        return v
+
+    def real(self, hint="h"):
+        return self.c.fresh_real(hint)
+
+    def bool(self, hint="h"):
+        return self.c.fresh_bool(hint)
+
+
+def _check(name, value):
+    """Discharge an invariant obligation on the current path."""
+    c = ctx()
+    c.loop_obligations.append(name)
+    if isinstance(value, SymBool):
+        r = c._check(z3.Not(value.t))
+        if r == z3.unsat:
+            return
+        if r == z3.sat:
+            raise LoopObligationFailed(name, "invariant not implied by the path condition")
+        raise Unsupported("loop obligation %s undecided (solver unknown)" % name)
+    if not value:
+        raise LoopObligationFailed(name, "invariant evaluates to False")
+
+
+def _default_seq(iterable):
+    if isinstance(iterable, range):
+        if iterable.step != 1 or iterable.start != 0:
+            raise Unsupported("cut loop over a range with start/step")
+        return iterable.stop, (lambda i: i)
+    if isinstance(iterable, SymRange):
+        return iterable.n, (lambda i: i)
+    if hasattr(iterable, "__symlen__") and hasattr(iterable, "at"):
+        return iterable.__symlen__(), iterable.at
+    raise Unsupported("cut loop over %s" % type(iterable).__name__)
+
+
+class SymRange:
+    """range(n) for a symbolic n (bound as `range` in the shadow namespace of a cut function)"""
+
+    def __init__(self, n):
+        self.n = n
+
+    def __iter__(self):
+        raise Unsupported("iteration over range(symbolic) outside a cut loop")
+
+
+def range_(*a):
+    if len(a) == 1 and isinstance(a[0], SymNum) and a[0].concrete() is None:
+        return SymRange(a[0])
+    return range(*[x.__index__() if isinstance(x, SymNum) else x for x in a])
+
+
+class _Cut:
+    def __init__(self, fn, k, spec, iterable, loc):
+        self.fn, self.k, self.spec = fn, k, spec
+        self.tag = "%d" % k
+        self.env0 = SimpleNamespace(**loc)
+        self.g = spec.ghost(self.env0) if spec.ghost else None
+        self.env0.g = self.g
+        if iterable is not None:
+            self.n, self.at = spec.seq(self.env0, iterable) if spec.seq else _default_seq(iterable)
+        else:
+            self.n, self.at = None, None
+        _check("inv:%s:init" % self.tag, spec.invariant(self.env0, 0, self.n))
+        self.phase = 0
+        self.i = None
+
+    def havoc(self):
+        c = ctx()
+        self.i = c.fresh_int("i")
+        c.assume_term(self.i.t >= 0)
+        if self.n is not None:
+            c.assume(self.i <= self.n)
+        vals = self.spec.havoc(_Fresh(c), self.env0, self.i, self.n)
+        missing = [m for m in self.spec.modifies if m not in vals]
+        if missing:
+            raise Unsupported("loop spec does not havoc %s" % missing)
+        env = SimpleNamespace(**{**self.env0.__dict__, **vals})
+        c.assume(self.spec.invariant(env, self.i, self.n))
+        out = tuple(vals[m] for m in self.spec.modifies)
+        return out if len(out) != 1 else (out[0],)
+
+    # -- for loops ------------------------------------------------------------
+    def __iter__(self):
+        return self
+
+    def __next__(self):
+        if self.phase == 0:
+            self.phase = 1
+            if bool(self.i < self.n):
+                return self.at(self.i)
+            raise StopIteration
+        self._step(sys._getframe(1).f_locals)
+
+    # -- while loops -----------------------------------------------------------
+    def again(self):
+        if self.phase == 0:
+            self.phase = 1
+            return True
+        self._step(sys._getframe(1).f_locals)
+
+    def _step(self, loc):
+        env = SimpleNamespace(**loc)
+        env.g = self.g
+        _check("inv:%s:step" % self.tag, self.spec.invariant(env, self.i + 1, self.n))
+        raise PathEnd()
+
+
+class _Runtime:
+    @staticmethod
+    def enter(fn, k, iterable, loc):
+        spec = ACTIVE.get((fn, k))
+        if spec is None:
+            raise Unsupported("no loop spec active for %s#%d" % (fn, k))
+        return _Cut(fn, k, spec, iterable, dict(loc))
+
+
+    @staticmethod
+    def fmt(template, args):
+        from .models import SymFormat, has_symbolic
+
+        if has_symbolic(args):
+            return SymFormat(template, args)
+        return template % args
+
+
+RUNTIME = _Runtime()
+
+
+# --------------------------------------------------------------------------
+# the AST transformation
+
+
+def _stored_names(body):
+    names = set()
+
+    class V(ast.NodeVisitor):
+        def visit_Name(self, n):
+            if isinstance(n.ctx, (ast.Store, ast.Del)):
+                names.add(n.id)
+
+        def visit_FunctionDef(self, n):
+            names.add(n.name)
+
+        def visit_Lambda(self, n):
+            pass
+
+        def visit_ListComp(self, n):
+            pass
+
+        visit_SetComp = visit_DictComp = visit_GeneratorExp = visit_ListComp
+
+    for s in body:
+        V().visit(s)
+    return names
+
+
+def transform(tree: ast.Module, cuts: dict, dropped: list):
+    from .loader import find_def
+
+    for qualname, loops in cuts.items():
+        fdef = find_def(tree, qualname)
+        if fdef is None:
+            raise LookupError("cut target %s not found" % qualname)
+        ordinal = [0]
+
+        def rewrite(stmts):
+            out = []
+            for st in stmts:
+                if isinstance(st, (ast.For, ast.While)):
+                    k = ordinal[0]
+                    ordinal[0] += 1
+                    if k in loops:
+                        out.extend(_cut_loop(st, qualname, k, loops[k]))
+                        dropped.append("%s: loop #%d cut by invariant (line %d)" % (qualname, k, st.lineno))
+                        continue
+                for field in ("body", "orelse", "finalbody"):
+                    if hasattr(st, field) and isinstance(getattr(st, field), list) and not isinstance(st, (ast.FunctionDef, ast.ClassDef)):
+                        setattr(st, field, rewrite(getattr(st, field)))
+                if isinstance(st, ast.Try):
+                    for h in st.handlers:
+                        h.body = rewrite(h.body)
+                out.append(st)
+            return out
+
+        fdef.body = rewrite(fdef.body)
+        missing = [k for k in loops if k >= ordinal[0]]
+        if missing:
+            raise LookupError("%s has no loop #%s" % (qualname, missing))
+    return tree
+
+
+def _cut_loop(st, qualname, k, spec: LoopSpec):
+    stored = _stored_names(st.body)
+    target_names = set()
+    if isinstance(st, ast.For):
+        for n in ast.walk(st.target):
+            if isinstance(n, ast.Name):
+                target_names.add(n.id)
+    undeclared = stored - set(spec.modifies) - target_names
+    if undeclared:
+        raise Unsupported("loop #%d of %s assigns %s which the loop spec does not list in `modifies`"
+                          % (k, qualname, sorted(undeclared)))
+    pv = "__pv%d" % k
+    line = dict(lineno=st.lineno, col_offset=st.col_offset)
+
+    def name(id_, ctx_=ast.Load):
+        return ast.Name(id=id_, ctx=ctx_(), **line)
+
+    enter = ast.Assign(
+        targets=[name(pv, ast.Store)],
+        value=ast.Call(func=ast.Attribute(value=name("__pyvc__"), attr="enter", ctx=ast.Load(), **line),
+                       args=[ast.Constant(value=qualname, **line), ast.Constant(value=k, **line),
+                             st.iter if isinstance(st, ast.For) else ast.Constant(value=None, **line),
+                             ast.Call(func=name("locals"), args=[], keywords=[], **line)], keywords=[], **line), **line)
+    out = [enter]
+    havoc_call = ast.Call(func=ast.Attribute(value=name(pv), attr="havoc", ctx=ast.Load(), **line), args=[], keywords=[], **line)
+    if spec.modifies:
+        out.append(ast.Assign(targets=[ast.Tuple(elts=[name(m, ast.Store) for m in spec.modifies], ctx=ast.Store(), **line)],
+                              value=havoc_call, **line))
+    else:
+        out.append(ast.Expr(value=havoc_call, **line))
+    if isinstance(st, ast.For):
+        out.append(ast.For(target=st.target, iter=name(pv), body=st.body, orelse=st.orelse, **line))
+    else:
+        test = ast.BoolOp(op=ast.And(), values=[
+            ast.Call(func=ast.Attribute(value=name(pv), attr="again", ctx=ast.Load(), **line), args=[], keywords=[], **line),
+            st.test], **line)
+        out.append(ast.While(test=test, body=st.body, orelse=st.orelse, **line))
+    return out
